@@ -21,6 +21,7 @@
 -/
 import PacketVerif.Lemmas.Dhcp4Wire
 import PacketVerif.Props.ComposeDhcp
+import PacketVerif.Props.C07
 namespace PV.Props.ComposeDhcpWire
 open PV PV.Model PV.Model.Dhcp4Srv PV.Model.Dhcp4Opt PV.Model.Dhcp4Frame PV.Spec PV.Spec.Ledger PV.Spec.Dhcp4Wire
 open PV.Lemmas.Dhcp4Wire PV.Lemmas.ComposeDhcp PV.Props.ComposeDhcp
@@ -488,6 +489,49 @@ theorem raw_ack_confirms_observed {cfg : Dhcp4Srv.Cfg} {s : State} {W : Observed
     exfalso
     simp only [handleMsg, release] at hr'
     cases hr'
+
+/-! ### 6. the frame around the reply (C07 for DHCP replies) -/
+
+/-- **C07 for the DHCPv4 replies, on the bytes.**  For every request payload (any bytes) received in a buffer of at
+    most 1480 payload bytes (an Ethernet receive buffer of 1522) from Ethernet source `srcMAC`, every reply of
+    `processRaw`, every admissible map iteration order and every content `g` of the 1522-byte pool buffer: the handler
+    writes a frame (`replyFrame`: `sendDHCP4Packet` with the destination `ProcessPacket` selects) that the independent
+    frame reference `Spec.Wire.wfUDP4` accepts — Ethernet source = the HOST NIC MAC, EtherType IPv4, a complete IPv4
+    header whose version / IHL / total length are consistent and whose checksum verifies, protocol UDP, source = the
+    host's address, UDP 67 → 68 with a consistent length, and the UDP payload is exactly the encoded reply (which the
+    DHCP reference reads as `WireConforms`: `reply_roundtrip`).  The destination is the Ethernet / IPv4 broadcast
+    when the datagram had no source address, else the sender's MAC and IP source. -/
+theorem dhcp_reply_frame_wf (cfg : Dhcp4Srv.Cfg) (s : State) (now : Nat) (rx : Rx) (p spare : Bytes) (res : Result) (r : Reply)
+    (o : Opts) (tail : List UInt8) (g : Mem) (hostMAC srcMAC : Bytes)
+    (hp : processRaw cfg s now rx p = .ok res) (hr : r ∈ res.replies) (ho : parseOptions p = .ok o)
+    (hcap : p.length + spare.length = rx.cap) (ht : TailOK r tail)
+    (hbuf : rx.cap ≤ 1480) (hg : g.length = 1522) (hh : hostMAC.length = 6) (hs : srcMAC.length = 6) :
+    ∃ msg w f, replyBytes p spare (optGet o 55) r tail = .ok msg ∧ Dhcp4Wire.read msg = some w ∧ WireConforms p r w ∧
+      replyFrame g hostMAC cfg.host srcMAC rx r msg = .ok f ∧
+      Spec.Wire.wfUDP4 hostMAC (replyDest srcMAC rx r).1 (ip4Bytes cfg.host) (replyDest srcMAC rx r).2 67 68 msg f = none ∧
+      r.bcast = (rx.srcIP == 0) ∧
+      replyDest srcMAC rx r = (if rx.srcIP = 0 then (ethBroadcast, [255, 255, 255, 255]) else (srcMAC, ip4Bytes rx.srcIP)) := by
+  obtain ⟨msg, w, h1, _, h3, h4, h5, _⟩ := reply_roundtrip cfg s now rx p spare res r o tail hp hr ho hcap ht
+  have hb : r.bcast = (rx.srcIP == 0) := by
+    obtain ⟨op, m, hd, hm, _, _, _, hr'⟩ := raw_reply_of_step hp hr
+    obtain ⟨m', hm', _, _, hsrc⟩ := decode_msg hd
+    rw [hm] at hm'
+    cases hm'
+    obtain ⟨_, _, hshape⟩ := handleMsg_reply hm hr'
+    rw [← hsrc]
+    rcases hshape with ⟨_, _, l, a, e⟩ | ⟨_, _, _, srv, e⟩ <;> rw [e] <;> rfl
+  have hd1 : (replyDest srcMAC rx r).1.length = 6 := by
+    unfold replyDest; split
+    · rfl
+    · exact hs
+  have hd2 : (replyDest srcMAC rx r).2.length = 4 := by
+    unfold replyDest; split <;> rfl
+  obtain ⟨f, hf, hwf⟩ := Props.C07.sent_udp4_wf g hostMAC (replyDest srcMAC rx r).1 (ip4Bytes cfg.host) (replyDest srcMAC rx r).2 50 67 68 msg
+    hh hd1 rfl hd2 (by omega) (by omega) (by omega) hg
+  refine ⟨msg, w, f, h1, h4, h5, hf, hwf, hb, ?_⟩
+  unfold replyDest
+  rw [hb]
+  by_cases h0 : rx.srcIP = 0 <;> simp [h0]
 
 /-! ### non-vacuity -/
 
